@@ -1,9 +1,13 @@
 package scen
 
 import (
+	"crypto/rsa"
 	"fmt"
 	mathrand "math/rand"
+	"path/filepath"
 	"time"
+
+	"github.com/xelaj/mtproto"
 
 	"github.com/xelaj/mtproto/telegram"
 	"github.com/xelaj/mtproto/telegram/verifh/refsrv"
@@ -50,6 +54,39 @@ func (e *Env) runHandshake() error {
 		if ev.Kind == "hs-fail" && !closed {
 			closed = true
 			go func() { time.Sleep(300 * time.Millisecond); close(abort) }()
+		}
+	}
+	if pk := e.Sc.PreludeKey; pk != nil {
+		// another client of this process, with another key, has been through a key exchange of its own
+		key := pk.Key()
+		ps, err := e.AddServerWithKey("prelude", key)
+		if err != nil {
+			return err
+		}
+		ps.Fault = nil
+		ps.OnRequest = defaultAPI
+		oc, err := mtproto.NewMTProto(mtproto.Config{AuthKeyFile: filepath.Join(e.Dir, "prelude-session.json"), ServerHost: ps.Addr(), PublicKey: &rsa.PublicKey{N: key.N, E: key.E}})
+		if err != nil {
+			return err
+		}
+		done := make(chan error, 1)
+		go func() {
+			defer func() {
+				if r := recover(); r != nil {
+					done <- fmt.Errorf("panic: %v", r)
+				}
+			}()
+			done <- oc.CreateConnection()
+		}()
+		select {
+		case err := <-done:
+			if err != nil {
+				e.Res.Notes = append(e.Res.Notes, "prelude exchange failed: "+err.Error())
+			} else {
+				e.Res.Notes = append(e.Res.Notes, "prelude exchange done")
+			}
+		case <-time.After(e.patience()):
+			e.Res.Notes = append(e.Res.Notes, "prelude exchange failed: timeout")
 		}
 	}
 	e.InstallDraws()
